@@ -2,6 +2,7 @@ package main
 
 import (
 	"encoding/json"
+	"runtime/pprof"
 	"flag"
 	"fmt"
 	"os"
@@ -70,15 +71,110 @@ type oblResult struct {
 	ax  []string
 }
 
+// solveBatches: first pass. The obligations of one function share their assumptions: they are sent to one
+// incremental solver process (push/pop per obligation). What that pass discharges is done; the rest goes through the
+// per-obligation race of solveAll, which also produces models.
+func solveBatches(eng *Engine, obls []*Obligation, dir string, par int) map[*Obligation]SolveResult {
+	done := map[*Obligation]SolveResult{}
+	groups := map[*Exec][]*Obligation{}
+	var order []*Exec
+	for _, o := range obls {
+		if o.exec == nil || o.Kind == "lemma" {
+			continue
+		}
+		if _, ok := groups[o.exec]; !ok {
+			order = append(order, o.exec)
+		}
+		groups[o.exec] = append(groups[o.exec], o)
+	}
+	type job struct {
+		obls   []*Obligation
+		script string
+		file   string
+	}
+	var jobs []job
+	for gi, ex := range order {
+		g := groups[ex]
+		if len(g) < 2 {
+			continue
+		}
+		var core []*Term
+		core = append(core, ex.assumes[:g[len(g)-1].NAssume]...)
+		for _, o := range g {
+			core = append(core, o.PC, o.Goal)
+		}
+		axs, _ := eng.relevantAxioms(core, "", nil)
+		sc := &Script{Asserts: axs}
+		prev := 0
+		for _, o := range g {
+			n := o.NAssume
+			if n < prev {
+				n = prev
+			}
+			sc.Steps = append(sc.Steps, BatchStep{Perm: ex.assumes[prev:n], Temp: []*Term{o.PC, Not(o.Goal)}})
+			prev = n
+		}
+		text := "(set-option :timeout 2500)\n" + sc.Render("ALL", nil, false)
+		jobs = append(jobs, job{g, text, filepath.Join(dir, fmt.Sprintf("batch%d.smt2", gi))})
+	}
+	var mu sync.Mutex
+	var wg sync.WaitGroup
+	sem := make(chan struct{}, par)
+	for _, j := range jobs {
+		j := j
+		wg.Add(1)
+		sem <- struct{}{}
+		go func() {
+			defer wg.Done()
+			defer func() { <-sem }()
+			if err := os.WriteFile(j.file, []byte(j.script), 0o644); err != nil {
+				return
+			}
+			start := time.Now()
+			outp, _ := execCmd("z3-new", fmt.Sprintf("-T:%d", 20+3*len(j.obls)), j.file)
+			secs := time.Since(start).Seconds()
+			// parse: "step i" followed by the verdict
+			lines := strings.Split(outp, "\n")
+			cur := -1
+			mu.Lock()
+			defer mu.Unlock()
+			for _, l := range lines {
+				l = strings.TrimSpace(l)
+				if strings.HasPrefix(l, "step ") {
+					fmt.Sscanf(l, "step %d", &cur)
+					continue
+				}
+				if cur >= 0 && cur < len(j.obls) && l == "unsat" {
+					done[j.obls[cur]] = SolveResult{Status: "unsat", Solver: "z3-new(batch)", Seconds: secs / float64(len(j.obls))}
+					cur = -1
+				} else if l == "sat" || l == "unknown" || strings.HasPrefix(l, "(error") {
+					cur = -1
+				}
+			}
+		}()
+	}
+	wg.Wait()
+	return done
+}
+
 func solveAll(eng *Engine, obls []*Obligation, timeout time.Duration, dir string, par int) []oblResult {
 	out := make([]oblResult, len(obls))
+	batched := map[*Obligation]SolveResult{}
+	if len(obls) > 8 && os.Getenv("CSVQVC_BATCH") != "" {
+		batched = solveBatches(eng, obls, dir, par)
+	}
 	// scripts are rendered sequentially (term store is not concurrent), solving runs in parallel
 	scripts := make([]string, len(obls))
 	relaxed := make([]string, len(obls))
 	for i, o := range obls {
+		out[i].o = o
+		if r, ok := batched[o]; ok {
+			out[i].res = r
+			_, out[i].ax = eng.relevantAxiomNames(o)
+			continue
+		}
 		s, ax := eng.script(o, true)
 		scripts[i] = s
-		out[i].o = o
 		out[i].ax = ax
 		if rs, _, dropped := eng.scriptR(o, true, true); dropped {
 			relaxed[i] = rs
@@ -87,6 +183,9 @@ func solveAll(eng *Engine, obls []*Obligation, timeout time.Duration, dir string
 	var wg sync.WaitGroup
 	sem := make(chan struct{}, par)
 	for i := range obls {
+		if _, ok := batched[obls[i]]; ok {
+			continue
+		}
 		wg.Add(1)
 		sem <- struct{}{}
 		go func(i int) {
@@ -120,9 +219,20 @@ func solveAll(eng *Engine, obls []*Obligation, timeout time.Duration, dir string
 }
 
 func main() {
+	if pf := os.Getenv("CSVQVC_PROF"); pf != "" {
+		f, _ := os.Create(pf)
+		pprof.StartCPUProfile(f)
+		defer pprof.StopCPUProfile()
+	}
+	code := realMain()
+	pprof.StopCPUProfile()
+	os.Exit(code)
+}
+
+func realMain() int {
 	if len(os.Args) < 2 {
 		fmt.Fprintln(os.Stderr, "usage: csvqvc check <property> [--tier quick|thorough] | func <key>... | lock | list")
-		os.Exit(2)
+		return 2
 	}
 	cmd := os.Args[1]
 	fs := flag.NewFlagSet(cmd, flag.ExitOnError)
@@ -154,21 +264,31 @@ func main() {
 	case "check":
 		if len(pos) != 1 {
 			fmt.Fprintln(os.Stderr, "check needs exactly one property id")
-			os.Exit(2)
+			return 2
 		}
 		noEvidence = *noev
-		os.Exit(runCheck(pos[0], *tier, *repo, *verif, *verbose, *tmo))
+		return runCheck(pos[0], *tier, *repo, *verif, *verbose, *tmo)
 	case "func":
-		os.Exit(runFuncs(pos, *repo, *verif, *verbose, *dump, *tmo))
+		return runFuncs(pos, *repo, *verif, *verbose, *dump, *tmo)
 	case "core":
-		os.Exit(runCore(pos, *repo, *verif))
+		return runCore(pos, *repo, *verif)
+	case "callers":
+		// lists the repository functions that call the given function (short name) and have no contract yet
+		eng, err := NewEngine(*repo, *verif)
+		if err != nil {
+			fmt.Fprintln(os.Stderr, err)
+			return 2
+		}
+		for _, k := range eng.callersOf(pos[0]) {
+			fmt.Println(k)
+		}
 	case "lock":
-		os.Exit(runLock(pos, *repo, *verif, *tmo))
+		return runLock(pos, *repo, *verif, *tmo)
 	case "list":
 		eng, err := NewEngine(*repo, *verif)
 		if err != nil {
 			fmt.Fprintln(os.Stderr, err)
-			os.Exit(2)
+			return 2
 		}
 		for _, k := range eng.contracts.Order {
 			c := eng.contracts.Funcs[k]
@@ -184,8 +304,9 @@ func main() {
 		}
 	default:
 		fmt.Fprintln(os.Stderr, "unknown command", cmd)
-		os.Exit(2)
+		return 2
 	}
+	return 0
 }
 
 var noEvidence bool
@@ -311,7 +432,18 @@ type propRun struct {
 	canaryBad []string
 	errors    []string
 	solverSec float64
+	skipped   []string
 }
+
+func parallelism() int {
+	n := 16
+	if v := os.Getenv("CSVQVC_PAR"); v != "" {
+		fmt.Sscan(v, &n)
+	}
+	return n
+}
+
+var skipObligations map[string]bool
 
 func runProperty(eng *Engine, prop string, timeout time.Duration, dir string) *propRun {
 	pr := &propRun{prop: prop}
@@ -334,7 +466,18 @@ func runProperty(eng *Engine, prop string, timeout time.Duration, dir string) *p
 		}
 		obls = append(obls, o)
 	}
-	pr.results = solveAll(eng, obls, timeout, dir, 6)
+	if len(skipObligations) > 0 {
+		var keep []*Obligation
+		for _, o := range obls {
+			if skipObligations[o.Name] {
+				pr.skipped = append(pr.skipped, o.Name)
+				continue
+			}
+			keep = append(keep, o)
+		}
+		obls = keep
+	}
+	pr.results = solveAll(eng, obls, timeout, dir, parallelism())
 	// lemmas used as hypotheses are obligations of this run too (whatever property they are tagged with)
 	have := map[string]bool{}
 	for _, l := range lemmas {
@@ -384,14 +527,37 @@ func runProperty(eng *Engine, prop string, timeout time.Duration, dir string) *p
 		pr.results = append(pr.results, oblResult{o: o, res: res})
 	}
 	// vacuity: the normal return of every verified function must be reachable under its assumptions
-	for _, rep := range pr.reports {
-		if rep.exec == nil || rep.Err != "" {
-			continue
+	{
+		type rj struct {
+			key    string
+			script string
 		}
-		r := Solve(eng.reachScript(rep), dir, "reach."+rep.Key, 5*time.Second)
-		if r.Status == "unsat" {
-			pr.vacuous = append(pr.vacuous, rep.Key)
+		var jobs []rj
+		for _, rep := range pr.reports {
+			if rep.exec == nil || rep.Err != "" {
+				continue
+			}
+			jobs = append(jobs, rj{rep.Key, eng.reachScript(rep)})
 		}
+		var mu sync.Mutex
+		var wg sync.WaitGroup
+		sem := make(chan struct{}, parallelism())
+		for _, j := range jobs {
+			j := j
+			wg.Add(1)
+			sem <- struct{}{}
+			go func() {
+				defer wg.Done()
+				defer func() { <-sem }()
+				r := Solve(j.script, dir, "reach."+j.key, 3*time.Second)
+				if r.Status == "unsat" {
+					mu.Lock()
+					pr.vacuous = append(pr.vacuous, j.key)
+					mu.Unlock()
+				}
+			}()
+		}
+		wg.Wait()
 	}
 	return pr
 }
@@ -455,9 +621,6 @@ func runCheck(prop, tier, repo, verif string, verbose bool, tmo int) int {
 	}
 	canaryBad := runCanary(eng, dir)
 	eng.bindingErrors = nil
-	pr := runProperty(eng, prop, timeout, dir)
-	pr.canaryBad = canaryBad
-
 	var lock LockFile
 	if data, err := os.ReadFile(filepath.Join(verif, "contracts.lock.json")); err == nil {
 		json.Unmarshal(data, &lock)
@@ -466,6 +629,16 @@ func runCheck(prop, tier, repo, verif string, verbose bool, tmo int) int {
 	if lock.Properties != nil && lock.Properties[prop] != nil {
 		lp = lock.Properties[prop]
 	}
+	if tier != "thorough" {
+		// obligations that never discharged on the unchanged tree are not claimed and can raise no alarm: the quick
+		// tier does not spend solver time on them (the thorough tier attempts them all)
+		skipObligations = map[string]bool{}
+		for _, u := range lp.Unclaimed {
+			skipObligations[u] = true
+		}
+	}
+	pr := runProperty(eng, prop, timeout, dir)
+	pr.canaryBad = canaryBad
 	unclaimed := map[string]bool{}
 	for _, u := range lp.Unclaimed {
 		unclaimed[u] = true
@@ -640,6 +813,7 @@ func writeEvidence(eng *Engine, pr *propRun, prop, tier, verif string, discharge
 		"solver_seconds_total":      pr.solverSec,
 		"samples":                   samples,
 		"unclaimed_unproved":        unclaimed,
+		"unclaimed_not_attempted":   pr.skipped,
 		"known_findings_reproduced": knownHit,
 		"binding_lost":              lost,
 		"binding_errors":            eng.bindingErrors,
